@@ -214,7 +214,7 @@ def identity(l, r):
             nn = o.props.get("none")
             if nn is None:
                 return False  # declared objects are not None unless stated
-            return nn
+            return mk_bool(nn) if z3.is_expr(nn) else nn
         if isinstance(c, type):
             # `type(x) is C` comes through SType; plain opaque is never a class
             return False
@@ -311,7 +311,8 @@ def opaque_isinstance(o: Opaque, classes):
         return True
     if not yes:
         return False
-    k = ctx().choose(2, f"isinstance {o!r}")
+    k = ctx().choose(2)
+    ctx().facts.append(f"{tagstr(o.tag)} {'is' if k == 0 else 'is-not'} {'|'.join(sorted(c.__name__ for c in classes))}")
     if k == 0:
         o.cands = yes
         if len(yes) == 1:
@@ -329,7 +330,8 @@ def opaque_type(o: Opaque):
             return o.cls
         raise Unsupported(f"type() of opaque of unknown class {o!r}")
     cands = sorted(o.cands, key=lambda c: c.__name__)
-    k = ctx().choose(len(cands), f"type {o!r}")
+    k = ctx().choose(len(cands))
+    ctx().facts.append(f"type({tagstr(o.tag)})={cands[k].__name__}")
     o.cands = frozenset([cands[k]])
     o.cls = cands[k]
     return cands[k]
@@ -373,9 +375,9 @@ def opaque_ast_field(o: Opaque, name):
         if tname == "identifier" or tname == "string":
             mk = lambda t: Hole(t, "ident" if tname == "identifier" else "str")
         elif tname == "int":
-            mk = lambda t: Opaque(t, int)
+            mk = lambda t: SInt(z3.Int(tagstr(t)))
         elif tname == "constant":
-            mk = lambda t: Opaque(t, object)
+            mk = lambda t: Opaque(t, object, truthy=None)
         elif tname == "expr_context":
             mk = lambda t: Opaque(t, ast.expr_context)
         else:
